@@ -87,8 +87,10 @@ def run(ctx):
     hdrs = header_defs()
     supported = {True: 0, False: 0}
     dropped = 0
-    for s in range(-1, nsets):
-        if s == -1:
+    for s in range(-2, nsets):
+        if s == -2:
+            defs = defgen.crafted_same_name_commons()    # a small set of its own (consecutive files matter)
+        elif s == -1:
             defs = defgen.crafted_header_flex()          # a small set of its own (unique API keys per set)
         else:
             defs = defgen.gen_set(rng, per, start_serial=s * per)
